@@ -1,5 +1,6 @@
 import E3fpVerif.Codec
 import E3fpVerif.Model.Pipeline
+import E3fpVerif.Model.SaveRun
 namespace E3fpVerif
 open Lean
 
@@ -20,6 +21,19 @@ def pipelineOp (op : String) (j : Json) : Except String Json := do
     return okJ (Json.mkObj [("n", natJ cnt), ("names", Json.arr names.toArray),
       ("keys", Json.arr (keys.map (fun (k : Int) => Json.num (JsonNumber.fromInt k))).toArray),
       ("selected", match selectLevel keys sel with | some k => Json.num (JsonNumber.fromInt k) | none => Json.null)])
+  | "pipe.save_run" =>
+    -- the save step of fprints_dict_from_mol on a file system holding `pre` (level key, content tag) for this molecule
+    let name ← jStr (← jField j "name")
+    let level ← jInt (← jField j "level")
+    let allIters ← jBool (← jField j "all_iters")
+    let overwrite ← jBool (← jField j "overwrite")
+    let ok ← jBool (← jField j "ok")
+    let pre ← jList (jPair jInt jStr) (← jField j "pre")
+    let fs : OFS String := pre.map (fun p => ((p.1, name), p.2))
+    let (fs', dict) := saveMol fs name level allIters overwrite (if ok then some (fun _ => "fresh") else none)
+    return okJ (Json.mkObj [
+      ("files", Json.arr (fs'.map (fun e => Json.arr #[Json.num (JsonNumber.fromInt e.1.1), Json.str e.2])).toArray),
+      ("returned", Json.arr (dict.map (fun e => Json.num (JsonNumber.fromInt e.1))).toArray)])
   | _ => .error s!"unknown op {op}"
 
 end E3fpVerif
